@@ -52,6 +52,10 @@ def run(prog: Program, rep: Report, tier: str):
     rule_cast(prog, rep, "C03.cast")   # dtype=float of the log_prob input is honoured
     rule_factory_condition(prog, rep)
     rule_flow_bijections(prog, rep, "C03")
+    # the masked autoregressive flow's log-det is the sum of the transformer log-dets only while the conditioner is
+    # strictly autoregressive (for every depth, 0 included): otherwise log_prob is not the density of what sample draws
+    from .c09 import rule_made_masks
+    rule_made_masks(prog, rep, R="C03.made-strict")
     rule_numpyro(prog, rep)
     if tier == "thorough":
         from ..audit import audit_generic
